@@ -130,6 +130,9 @@ func TestC08(t *testing.T) {
 	var staticFails int
 	runProperty(c, "run", c.N(240, 6000), 0, func(rt *rapid.T) *RunCase {
 		f := prof.File(rt, "prog.json")
+		if rapid.IntRange(0, 3).Draw(rt, "collidingdefs") == 0 {
+			addCollidingDefs(rt, c, f, "enum")
+		}
 		cs := caseOf(baseConfig(), []string{f.RelPath}, f)
 		probs, n, st := enumConstCheck(cs, f)
 		c.Count("static." + st)
